@@ -117,9 +117,19 @@ def symlen(x):
     return _b.len(x)
 
 
+def _tag(x):
+    if is_sym(x):
+        return getattr(x, 'dtype', None)
+    return x.dtype if isinstance(x, _np.generic) else None
+
+
 def _minmax2(a, b, ismax):
     c = (a >= b) if ismax else (a <= b)
     if isinstance(c, SymBool):
+        if _tag(a) != _tag(b):
+            # max/min return one of the two *objects*: with differently typed operands (a NumPy scalar and
+            # a Python int) the type of the result depends on the comparison, so the path forks
+            return a if _b.bool(c) else b
         return ite(c, a, b)
     return a if c else b
 
